@@ -8,6 +8,9 @@ From Coq Require Import Reals List Lia Lra Bool ZArith Floats.
 From Coquelicot Require Import Coquelicot.
 From ADV Require Import Base.Num C06.Model C06.Spec C06.ParamT C06.ProofsAlg C06.ProofsAna C06.ProofsLift
                         C06.ProofsInst C06.ProofsGJ2 C06.ProofsCalc C06.ProofsGlue C06.ProofsVal C06.Corr.
+From ADV Require Import C04.Model2 C04.ProofsBuf C06.Model32 C06.ModelBuf C06.ParamT2 C06.ProofsBuf C06.ProofsBuf2 C06.ProofsVal32
+                        C06.ProofsJacobi C06.ProofsOpen C06.ProofsLdl C06.ProofsInv3 C06.ProofsGS2.
+From ADV Require C06.ProofsDetN.
 Import ListNotations.
 Open Scope R_scope.
 
@@ -209,9 +212,206 @@ Theorem forcepd_excluded : forall x bf dl a, exists E, runE (p_fpd 1) x [(None, 
   existsb lossy E = true.
 Proof. exact fpd1_lossy. Qed.
 
+(* ================================================================== round 2 *)
+
+(* (7) RECYCLED InSitu BUFFERS.  For EVERY carrier the Cholesky factorisation does not depend on what the
+   factor buffer InSitu.L held before (every entry it reads it wrote before in the same run; the strict upper
+   triangle is overwritten with the constant 0 - the loop of seeded regression C06-4) ... *)
+Theorem cholesky_factor_buffer_independent : forall (A : Type) (N : Num A) (n : nat) (Am L0 L0' : list (list A)),
+  wfm n L0 -> wfm n L0' -> M4.cholesky N n Am L0 = M4.cholesky N n Am L0'.
+Proof. exact @cholesky_L0_indep. Qed.
+
+(* ... hence matrixInverse.Run (all three modes) does not depend on ANY of its four caller-supplied buffers
+   (Id, A, B: C04's theorem; Cholesky.L: here), nor determinant.Run(PositiveDefinite [, LogScale]) on its one *)
+Theorem matrix_inverse_all_buffers_independent :
+  forall (A : Type) (N : Num A) (dense : bool) (mode : M4.inv_mode) (n : nat) (omsk : option (list bool))
+         (bf : inv_bufs (A:=A)) (m : list (list A)),
+    wfm n m -> wf_all_bufs n bf ->
+    m_inverse_insitu N dense mode n omsk bf m = m_inverse_v2 N dense mode n omsk m.
+Proof. exact @m_inverse_all_bufs_indep. Qed.
+
+Theorem determinant_pd_buffer_independent :
+  forall (A : Type) (N : Num A) (lg : A -> A) (logscale : bool) (n : nat) (bufL : option (list (list A))) (m : list (list A)),
+    (forall b, bufL = Some b -> wfm n b) ->
+    det_pd_insitu N lg logscale n bufL m = det_pd_insitu N lg logscale n None m.
+Proof. exact @det_pd_insitu_indep. Qed.
+
+(* ... and at the magic carrier: jet_lift for the BUFFER-TAKING routines with ARBITRARY prior buffer content.
+   [bufs] is any list of jets of the right length - any values, activity flags, gradients, Hessians: whatever an
+   earlier call on another matrix, at another order, with another activated subset left behind.  The outputs
+   carry the value and the partial derivatives of the real function the fresh call computes (the jet analogue
+   of C04's history_independence). *)
+Theorem recycled_buffers_cholesky : forall n k o x s (bufs : list (jet R)),
+  length bufs = (n * n)%nat -> (n * n <= length s)%nat ->
+  run_safe (p_chol4_fresh n) s x -> stable (p_chol4_fresh n) s x ->
+  exists J, runJbuf (p_chol4_buf n) k o x bufs s = Some J /\ runR (p_chol4_fresh n) x s = Some (map jv J) /\
+            forall q, holds k o (outR (p_chol4_fresh n) s q) x (nth q J (jconst 0)).
+Proof. exact chol_recycled_jets. Qed.
+
+Theorem recycled_buffers_determinant_pd : forall logscale n k o x s (bufs : list (jet R)),
+  length bufs = (n * n)%nat -> run_safe (p_detpd_fresh logscale n) s x -> stable (p_detpd_fresh logscale n) s x ->
+  exists J, runJbuf (p_detpd_buf logscale n) k o x bufs s = Some J /\ runR (p_detpd_fresh logscale n) x s = Some (map jv J) /\
+            forall q, holds k o (outR (p_detpd_fresh logscale n) s q) x (nth q J (jconst 0)).
+Proof. exact detpd_recycled_jets. Qed.
+
+Theorem recycled_buffers_matrix_inverse : forall mode n k o x s (bId bA bL bB : list (jet R)),
+  length bId = (n * n)%nat -> length bA = (n * n)%nat -> length bL = (n * n)%nat -> length bB = n -> (n * n <= length s)%nat ->
+  run_safe (p_inv_fresh mode n) s x -> stable (p_inv_fresh mode n) s x ->
+  exists J, runJbuf (p_inv_buf mode n) k o x (bId ++ bA ++ bL ++ bB) s = Some J /\
+            runR (p_inv_fresh mode n) x s = Some (map jv J) /\
+            forall q, holds k o (outR (p_inv_fresh mode n) s q) x (nth q J (jconst 0)).
+Proof. exact inv_recycled_jets. Qed.
+
+Theorem recycled_buffers_back_substitution : forall n k o x s (bufA x0 : list (jet R)),
+  length bufA = (n * n)%nat -> length x0 = n -> (n * n <= length s)%nat -> run_safe (p_backsub_fresh n) s x ->
+  exists J, runJbuf (p_backsub_buf n) k o x (bufA ++ x0) s = Some J /\
+            runR (p_backsub_fresh n) x s = Some (map jv J) /\
+            forall q, holds k o (outR (p_backsub_fresh n) s q) x (nth q J (jconst 0)).
+Proof. exact backsub_recycled_jets. Qed.
+
+(* satisfiable: the 1 x 1 factorisation into a buffer holding ANY jet b *)
+Example recycled_buffers_nontrivial : forall k o x (b : jet R), 0 < x 0%nat ->
+  exists J, runJbuf (p_chol4_buf 1) k o x [b] [(Some 0%nat, 0)] = Some J /\
+            forall q, holds k o (outR (p_chol4_fresh 1) [(Some 0%nat, 0)] q) x (nth q J (jconst 0)).
+Proof. exact chol_recycled_1x1. Qed.
+
+(* (8) the 32 bit element types.  Real32 stores every slot rounded to binary32 (jets [NumXJS .. r32]); its VALUES
+   are those of the plain carrier whose every operation is rounded once (Float32 semantics) - for every base
+   carrier, rounding function and program *)
+Theorem magic_values_store_rounded : forall A (D : NumD A) (st : A -> A) (k o : nat) (m : prog), prog_R m m ->
+  forall inp : list (jet A),
+  option_map (map jv) (m (jet A) (NumXJS D st k o) (jlogS D st k o) inp)
+  = m A (NumXS D st (M5.gsqrt (dx D))) (fun a => st (nlog D a)) (map jv inp).
+Proof. intros A D st k o m mR inp. exact (values_agree_store_rounded D st k o m mR inp). Qed.
+
+Theorem magic_values_binary32 : forall (k o : nat) (m : prog), prog_R m m -> forall inp : list (jet float),
+  option_map (map jv) (m (jet float) (NumXJS NumDFg r32 k o) (jlogS NumDFg r32 k o) inp)
+  = m float NumXF32gen (fun a => r32 a) (map jv inp).
+Proof. intros k o m mR inp. exact (values_agree_store_rounded NumDFg r32 k o m mR inp). Qed.
+
+(* (9) matrix calculus, GENERAL n.  The partial derivative of the determinant the library computes with respect
+   to entry (i,j) is the cofactor (C04's determinant_linear_in_every_row at the reals) ... *)
+Theorem determinant_partial_is_cofactor : forall n i j x, (i < n)%nat -> (j < n)%nat ->
+  partial (outR (p_det n) (all_vars (n * n)) 0) (i * n + j) x (Cof n (Mx n x) i j).
+Proof. exact det_partial_is_cofactor_program. Qed.
+
+Theorem cofactor_expansion_general_n : forall n (M : nat -> nat -> R) k i, (k < n)%nat -> (i < n)%nat ->
+  msum n (fun j => M k j * Cof n M i j) = if Nat.eqb k i then Det n M else 0.
+Proof. exact cofactor_expansion. Qed.
+
+(* ... d log det A = tr(A^-1 dA): the gradient of log det is inv(A) transposed, for ANY left inverse X ... *)
+Theorem logdet_gradient_general_n : forall n x (X : nat -> nat -> R),
+  0 < outR (p_det n) (all_vars (n * n)) 0 x ->
+  (forall i j, (i < n)%nat -> (j < n)%nat -> msum n (fun c => X i c * x (c * n + j)%nat) = kron i j) ->
+  forall i j, (i < n)%nat -> (j < n)%nat ->
+    partial (fun y => ln (outR (p_det n) (all_vars (n * n)) 0 y)) (i * n + j) x (X j i).
+Proof. exact logdet_derivative_general_n_program. Qed.
+
+(* ... along any differentiable curve of matrices (Jacobi's formula, and its log form as a trace) *)
+Theorem jacobi_formula_general_n : forall n (M : nat -> nat -> R -> R) (dM : nat -> nat -> R) t0,
+  (forall i j, (i < n)%nat -> (j < n)%nat -> is_derive (M i j) t0 (dM i j)) ->
+  is_derive (fun t => Det n (fun r c => M r c t)) t0
+            (msum n (fun i => msum n (fun j => dM i j * Cof n (fun r c => M r c t0) i j))).
+Proof. exact jacobi_formula. Qed.
+
+Theorem logdet_differential_is_trace_general_n : forall n M dM (X : nat -> nat -> R) t0,
+  (forall i j, (i < n)%nat -> (j < n)%nat -> is_derive (M i j) t0 (dM i j)) ->
+  0 < Det n (fun r c => M r c t0) ->
+  (forall i j, (i < n)%nat -> (j < n)%nat -> msum n (fun c => X i c * M c j t0) = kron i j) ->
+  is_derive (fun t => ln (Det n (fun r c => M r c t))) t0 (msum n (fun j => msum n (fun i => X j i * dM i j))).
+Proof. exact logdet_differential_is_trace_curve. Qed.
+
+(* ... the gradient slots the library computes for the determinant ARE the cofactors, every n, no hypothesis *)
+Theorem determinant_gradient_slots_are_cofactors : forall n k o x, (n * n <= k)%nat -> (1 <= o)%nat ->
+  exists J, runJ (p_det n) k o x (all_vars (n * n)) = Some [J] /\ jv J = detF n x /\
+            forall i j, (i < n)%nat -> (j < n)%nat -> gd NumDR J (i * n + j) = Cof n (Mx n x) i j.
+Proof. exact det_gradient_slots_are_cofactors. Qed.
+
+Theorem determinant_derivatives_all_n_no_hypothesis : forall n k o x s,
+  exists J, runJ (p_det n) k o x s = Some [J] /\ holds k o (outR (p_det n) s 0) x J.
+Proof. exact determinant_derivatives_unconditional. Qed.
+
+(* the second-order identity for the inverse: X'' = (X A' X) A' X + X A' (X A' X) for A'' = 0, every n *)
+Theorem inverse_second_derivative : forall n (A X dX : nat -> nat -> R -> R) (dA ddX : nat -> nat -> R) t0,
+  locally t0 (fun t => forall i j, (i < n)%nat -> (j < n)%nat -> is_derive (A i j) t (dA i j)) ->
+  locally t0 (fun t => forall i j, (i < n)%nat -> (j < n)%nat -> is_derive (X i j) t (dX i j t)) ->
+  (forall i j, (i < n)%nat -> (j < n)%nat -> is_derive (dX i j) t0 (ddX i j)) ->
+  locally t0 (fun t => forall i j, (i < n)%nat -> (j < n)%nat -> msum n (fun c => A i c t * X c j t) = kron i j) ->
+  locally t0 (fun t => forall i j, (i < n)%nat -> (j < n)%nat -> msum n (fun c => X i c t * A c j t) = kron i j) ->
+  let P := fun i j => msum n (fun c => msum n (fun d => X i c t0 * dA c d * X d j t0)) in
+  forall i j, (i < n)%nat -> (j < n)%nat ->
+    ddX i j = msum n (fun c => msum n (fun d => P i c * dA c d * X d j t0))
+            + msum n (fun c => msum n (fun d => X i c t0 * dA c d * P d j)).
+Proof. exact inverse_second_derivative_formula. Qed.
+
+(* (10) more routines with EVERY hypothesis discharged (run_safe and stable proved on an explicit open domain;
+   openness from the continuity of the symbolic pivots, ProofsOpen.v).  The 3 x 3 inverse with its pivot search:
+   no row exchange, and exactly one exchange at the first step; the pivot order is fixed by strict inequalities *)
+Theorem matrix_inverse_3x3_no_row_exchange : forall k o x, inv3_dom_ne x ->
+  exists J, runJ (p_inv M4.InvPlain 3) k o x (all_vars 9) = Some J /\
+            runR (p_inv M4.InvPlain 3) x (all_vars 9) = Some (map jv J) /\
+            J = map (evalJ k o x) inv3_E_ne /\
+            (forall q, holds k o (outR (p_inv M4.InvPlain 3) (all_vars 9) q) x (nth q J (jconst 0))) /\
+            (forall q, holds k o (fun y => evalR y (nth q inv3_E_ne (Cst 0))) x (nth q J (jconst 0))).
+Proof. exact inv3_jets_no_exchange. Qed.
+Example inv3_no_exchange_nontrivial : inv3_dom_ne (fun i => nth i [4; 1; 2; 1; 3; 0; 2; 1; 5] 0).
+Proof. exact inv3_dom_ne_example. Qed.
+
+Theorem matrix_inverse_3x3_one_row_exchange : forall k o x, inv3_dom_ex x ->
+  exists J, runJ (p_inv M4.InvPlain 3) k o x (all_vars 9) = Some J /\
+            runR (p_inv M4.InvPlain 3) x (all_vars 9) = Some (map jv J) /\
+            J = map (evalJ k o x) inv3_E_ex /\
+            (forall q, holds k o (outR (p_inv M4.InvPlain 3) (all_vars 9) q) x (nth q J (jconst 0))) /\
+            (forall q, holds k o (fun y => evalR y (nth q inv3_E_ex (Cst 0))) x (nth q J (jconst 0))).
+Proof. exact inv3_jets_one_exchange. Qed.
+Example inv3_one_exchange_nontrivial : inv3_dom_ex (fun i => nth i [1; 3; 0; 4; 1; 2; 2; 1; 5] 0).
+Proof. exact inv3_dom_ex_example. Qed.
+
+(* LDL, 2 x 2 and 3 x 3, on the domain where the leading principal minors are positive *)
+Theorem ldl_2x2 : forall k o x, ldl2_dom x ->
+  exists J, runJ (p_ldl 2) k o x (all_vars 4) = Some J /\
+            runR (p_ldl 2) x (all_vars 4) = Some (map jv J) /\
+            map jv J = [1; 0; x 2%nat / x 0%nat; 1;   x 0%nat; 0; 0; (x 0%nat * x 3%nat - x 2%nat * x 2%nat) / x 0%nat] /\
+            (forall q, holds k o (outR (p_ldl 2) (all_vars 4) q) x (nth q J (jconst 0))) /\
+            (forall q, holds k o (fun y => evalR y (nth q ldl2_E (Cst 0))) x (nth q J (jconst 0))).
+Proof. exact ldl2_jets. Qed.
+Theorem ldl_3x3 : forall k o x, ldl3_dom x ->
+  exists J, runJ (p_ldl 3) k o x (all_vars 9) = Some J /\
+            runR (p_ldl 3) x (all_vars 9) = Some (map jv J) /\
+            J = map (evalJ k o x) ldl3_E /\
+            (forall q, holds k o (outR (p_ldl 3) (all_vars 9) q) x (nth q J (jconst 0))) /\
+            (forall q, holds k o (fun y => evalR y (nth q ldl3_E (Cst 0))) x (nth q J (jconst 0))).
+Proof. exact ldl3_jets. Qed.
+Example ldl_domains_nontrivial : ldl2_dom (fun i => nth i [4; 7; 2; 3] 0) /\ ldl3_dom (fun i => nth i [4; 9; 9; 2; 5; 9; 2; 3; 6] 0).
+Proof. exact (conj ldl2_dom_example ldl3_dom_example). Qed.
+
+(* Gram-Schmidt has no data-dependent branch: no stability hypothesis, all sizes; 2 x 2 fully discharged on the
+   domain where the columns are independent *)
+Theorem gram_schmidt_derivatives : forall n m k o x s, run_safe (p_gs n m) s x ->
+  exists J, runJ (p_gs n m) k o x s = Some J /\ runR (p_gs n m) x s = Some (map jv J) /\
+            forall q, holds k o (outR (p_gs n m) s q) x (nth q J (jconst 0)).
+Proof. exact gs_jets. Qed.
+Theorem gram_schmidt_2x2 : forall k o x, gs2_dom x ->
+  exists J, runJ (p_gs 2 2) k o x (all_vars 4) = Some J /\
+            runR (p_gs 2 2) x (all_vars 4) = Some (map jv J) /\
+            J = map (evalJ k o x) gs2_E /\
+            (forall q, holds k o (outR (p_gs 2 2) (all_vars 4) q) x (nth q J (jconst 0))) /\
+            (forall q, holds k o (fun y => evalR y (nth q gs2_E (Cst 0))) x (nth q J (jconst 0))).
+Proof. exact gs2_jets. Qed.
+Example gs2_dom_nontrivial : gs2_dom (fun i => nth i [3; 1; 4; 2] 0).
+Proof. exact gs2_dom_example. Qed.
+
+(* log det for general n from the determinant's theorem + positivity: the jet the library computes for
+   Log(determinant) carries value, gradient and Hessian of  y |-> ln (det y) *)
+Theorem logdet_jets_general_n : forall n s k o x, 0 < outR (p_det n) s 0 x ->
+  holds k o (fun y => ln (outR (p_det n) s 0 y)) x (evalJ k o x (ELog (ProofsDetN.det_E n s x))).
+Proof. exact ProofsDetN.logdet_jets_general_n_out. Qed.
+
 (* Not proved (stated for the record):
-   gauss_jordan_3x3_partial - run_safe/stable of the 3x3 inverse are not discharged in Coq (the 2x2 case is:
-     matrix_inverse_2x2_no_pivot_change); the general theorem all_routines_derivatives covers every size under
-     those two hypotheses, and the bit-exact derivative replay and the closed-formula certificates tie it.
-   logdet_general_n_partial - d log det A = tr(A^-1 dA) for general n (Jacobi's formula) is certified per
-     run in exact rational arithmetic from Go's output (Corr.KF kinds 1, 2), not proved. *)
+   inverse_3x3_values_partial - that the straight-line programs inv3_E_ne / inv3_E_ex evaluate to the entries of the
+     inverse is not proved symbolically (2x2: proved); the general theorem all_routines_derivatives + the bit-exact
+     derivative replay + the closed-formula certificates (Corr.KF kind 0) tie it.
+   cholesky_models_agree_partial - the buffer-taking Cholesky model is C04's (M4.cholesky), the fresh p_chol is C05's
+     (M5.cholesky); their equality is not proved (both are tied to Go on the same cases, fresh and recycled).
+   recycled LDL / Gram-Schmidt / Hessenberg / tri-/bidiagonalisation buffers: tie only (Go's recycled run = the
+     fresh model term), no buffer-taking model. *)
